@@ -52,6 +52,7 @@ class Ctx:
         self.caps = []               # textual description of every cap that was hit
         self.exhaustive = True
         self.max_violations = 5
+        self.small = False           # reduced exploration (interpreter-flags leg): the module's cheap legs only
         self.procs = int(os.environ.get('VERIF_PROCS', '0') or 0) or (os.cpu_count() or 1)
         known = load_known()
         self.known_open = {k['id']: k for k in known.get('open', []) if k['property'] == pid}
@@ -122,7 +123,7 @@ class Ctx:
     def child(self):
         c = Ctx.__new__(Ctx)
         c.__dict__.update({k: v for k, v in self.__dict__.items()
-                           if k in ('pid', 'tier', 'seed', 'tree', 'known_open', 'max_violations', 'procs')})
+                           if k in ('pid', 'tier', 'seed', 'tree', 'known_open', 'max_violations', 'procs', 'small')})
         c.t0 = time.time()
         c.states = c.transitions = c.traces = 0
         c.outcomes, c.samples, c.legs, c.violations = set(), [], [], []
